@@ -8,6 +8,7 @@ import (
 	"fmt"
 	"io"
 	mathrand "math/rand/v2"
+	"os"
 	"runtime"
 	"runtime/debug"
 	"sort"
@@ -252,7 +253,15 @@ func (r *Run) Logf(format string, a ...any) {
 		r.full = append(r.full, line)
 	}
 	r.mu.Unlock()
+	if liveLog {
+		os.Stderr.WriteString(line + "\n")
+	}
 }
+
+// liveLog (VERIF_LIVE=1) writes every event to stderr at once: a debugging aid
+// for runs that kill the process; it performs system calls inside the bubble
+// and is never used by a check.
+var liveLog = os.Getenv("VERIF_LIVE") == "1"
 
 // Violate records an oracle failure.  class must be stable across runs (it is
 // the identity used for minimisation and for the known-findings file).
@@ -423,6 +432,45 @@ func bubbleStacks() (string, []string) {
 	}
 	sort.Strings(tops)
 	return strings.Join(keep, "\n\n"), tops
+}
+
+// BlockedSummary lists, for every goroutine of the bubble that is executing
+// repository code, its wait reason and its innermost repository frames.
+func BlockedSummary() string {
+	buf := make([]byte, 1<<20)
+	n := runtime.Stack(buf, true)
+	out := []string{}
+	for _, b := range strings.Split(string(buf[:n]), "\n\n") {
+		first, _, _ := strings.Cut(b, "\n")
+		if !strings.Contains(first, bubbleStackFilter) {
+			continue
+		}
+		reason := first
+		if i := strings.Index(first, "["); i >= 0 {
+			reason = strings.TrimSuffix(first[i:], ":")
+		}
+		frames := []string{}
+		lines := strings.Split(b, "\n")
+		for i, line := range lines {
+			if strings.HasPrefix(line, "hop.computer/hop/") && i+1 < len(lines) {
+				fn, _, _ := strings.Cut(line, "(0x")
+				loc := strings.TrimSpace(lines[i+1])
+				loc, _, _ = strings.Cut(loc, " +0x")
+				if j := strings.LastIndex(loc, "/"); j >= 0 {
+					loc = loc[j+1:]
+				}
+				frames = append(frames, strings.TrimPrefix(fn, "hop.computer/hop/")+"@"+loc)
+				if len(frames) == 3 {
+					break
+				}
+			}
+		}
+		if len(frames) > 0 {
+			out = append(out, reason+" "+strings.Join(frames, " < "))
+		}
+	}
+	sort.Strings(out)
+	return strings.Join(out, "\n  ")
 }
 
 // Execute performs one run of a scenario in a fresh bubble.
